@@ -87,12 +87,20 @@ def server_scenario_st(tier):
                                'id': st.integers(0, 4),
                                'seen': st.just(True),
                                'args': st.lists(arg, max_size=2)}),
+        # the same acknowledgement twice
+        st.fixed_dictionaries({'op': st.just('ack'), 'c': ci,
+                               'id': st.integers(0, 4),
+                               'seen': st.just(True), 'dup': st.just(True),
+                               'args': st.lists(arg, max_size=2)}),
         st.fixed_dictionaries({'op': st.just('emit'), 'to': to,
                                'skip': st.one_of(st.none(), ci,
                                                  st.lists(ci, max_size=2)),
                                'ns': st.integers(0, 3),
                                'data': S.payload_st(max_leaves=3),
-                               'cb': st.booleans()}),
+                               # callback: absent / plain / raises after it
+                               # ran / disconnects the client that answered
+                               'cb': st.sampled_from([False, True, True,
+                                                      'raise', 'disc'])}),
         st.fixed_dictionaries({'op': st.just('call'), 'c': ci,
                                'ack': st.one_of(st.none(), st.lists(
                                    arg, max_size=2))}),
@@ -454,12 +462,27 @@ def _run(case, aio, coro, setup, w, socketio, n_transports):
             if op['cb'] and isinstance(to, dict):
                 cb_ctr[0] += 1
                 kk = cb_ctr[0]
-                if coro:
-                    async def cb(*a, kk=kk):
+                mode = op['cb']
+                tsid, tns = kw['to'], ns
+                if coro or (aio and mode == 'disc'):
+                    async def cb(*a, kk=kk, mode=mode, tsid=tsid, tns=tns):
                         trace.append(('callback', kk, list(a)))
+                        if mode == 'raise':
+                            raise RuntimeError('application handler fault')
+                        if mode == 'disc':
+                            await sio.disconnect(tsid, namespace=tns)
+                elif aio:
+                    def cb(*a, kk=kk, mode=mode):
+                        trace.append(('callback', kk, list(a)))
+                        if mode == 'raise':
+                            raise RuntimeError('application handler fault')
                 else:
-                    def cb(*a, kk=kk):
+                    def cb(*a, kk=kk, mode=mode, tsid=tsid, tns=tns):
                         trace.append(('callback', kk, list(a)))
+                        if mode == 'raise':
+                            raise RuntimeError('application handler fault')
+                        if mode == 'disc':
+                            sio.disconnect(tsid, namespace=tns)
                 kw['callback'] = cb
             api(step, 'emit', lambda: sio.emit('ev', op['data'],
                                                namespace=ns, **kw))
@@ -518,6 +541,9 @@ def _run(case, aio, coro, setup, w, socketio, n_transports):
                     pid = pool[op['id'] % len(pool)]
                 w.send(c['t'], wire.ACK, c['ns'], pid, list(op['args']))
                 w.h.settle()
+                if op.get('dup') and w.t_alive[c['t']]:
+                    w.send(c['t'], wire.ACK, c['ns'], pid, list(op['args']))
+                    w.h.settle()
             elif k == 'call':
                 if not case['async_handlers']:
                     api(step, 'call', lambda: sio.call(
